@@ -368,18 +368,19 @@ def configs_a(ctx: Ctx) -> list[dict[str, Any]]:
             add(mi, two[0])
             add(mi, two[1])
             add(mi, two[0], bound=1, reap=True)
-            add(mi, two[1], bound=1, reap=True)
             add(mi, two[0], close=True)
-            add(mi, two[1], die=0)
-            # line-granular: every pair of preemptions at every source line of the pool methods
-            add(mi, two[0], bound=2, trace=True)
+            if mi < 2:
+                add(mi, two[1], die=0)
+                # line-granular: every pair of preemptions at every source line of the pool methods
+                add(mi, two[0], bound=2, trace=True)
+        add(1, two[1], bound=1, reap=True)
         add(1, two[2])
         add(1, two[3])
         add(1, two[3], bound=1, reap=True)
-        add(2, two[1], close=True)
-        add(1, three[0])
+        add(1, three[0], bound=1)
         add(1, three[1], bound=1)
         add(2, three[0], bound=1, close=True)
+        add(2, two[0], bound=1, trace=True)
         add(1, two[1], bound=1, trace=True)
         add(1, two[0], bound=1, trace=True, close=True)
         add(2, two[1], bound=1, trace=True, reap=True)
